@@ -107,6 +107,23 @@ class GenerateWasmVisitor(Visitor.DefaultVisitor):
             self.__code = None
             self.__functionCount = 0
             self.__refToLocalMap = {}
+            self.__resultTypes = []
+            self.__hasReturn = False
+
+        def SetResultTypes(self, resultTypes):
+            self.__resultTypes = resultTypes
+            self.__hasReturn = False
+
+        @property
+        def ResultTypes(self):
+            return self.__resultTypes
+
+        def OnReturn(self):
+            self.__hasReturn = True
+
+        @property
+        def HasReturn(self):
+            return self.__hasReturn
 
         def SetReferenceToLocalMap(self, refToLocalMap: Dict[int, int]):
             self.__refToLocalMap = refToLocalMap
@@ -259,8 +276,21 @@ class GenerateWasmVisitor(Visitor.DefaultVisitor):
         )
 
     def v_ReturnInstruction(self, ri: LinearIR.ReturnInstruction, ctx: Context):
+        # The returned value must be what the signature announces, otherwise
+        # the function body does not validate
         if ri.Value:
+            if ctx.ResultTypes != [_ConvertValueType(ri.Value.Type)]:
+                raise Exception(
+                    f"Unsupported: returning a value of type {ri.Value.Type} "
+                    "from a function with a different result type"
+                )
             self.__PushValueOntoStack(ri.Value, ctx)
+        elif ctx.ResultTypes:
+            raise Exception(
+                "Unsupported: return without a value in a function with a "
+                "result"
+            )
+        ctx.OnReturn()
 
         assert ctx.Code
         ctx.Code.AddInstruction(
@@ -279,6 +309,11 @@ class GenerateWasmVisitor(Visitor.DefaultVisitor):
         # function section; the export refers to the function by its index
         typeIndex = ctx.Module.AddFunctionType(functionType)
         ctx.Module.AddFunction(typeIndex)
+
+        returnType = cast(LinearIR.FunctionType, function.Type).ReturnType
+        ctx.SetResultTypes(
+            [] if returnType.IsVoid() else [_ConvertValueType(returnType)]
+        )
 
         # Check if function is exported - for now assume yes
 
@@ -313,6 +348,12 @@ class GenerateWasmVisitor(Visitor.DefaultVisitor):
         for basicBlock in function.BasicBlocks:
             for instruction in basicBlock.Instructions:
                 self.v_Visit(instruction, ctx)
+
+        if ctx.ResultTypes and not ctx.HasReturn:
+            raise Exception(
+                f"Unsupported: function '{function.Name}' has a result but "
+                "does not return a value"
+            )
 
         ctx.OnLeaveFunction()
 
